@@ -72,7 +72,7 @@ func (c *Ctx) CG() *callGraph {
 	sort.Slice(g.repoNamed, func(i, j int) bool { return g.repoNamed[i].String() < g.repoNamed[j].String() })
 	// pass 1: function values stored into struct fields, address-taken functions
 	taken := map[*ssa.Function]bool{}
-	funcOf := func(v ssa.Value) *ssa.Function {
+	rawFuncOf := func(v ssa.Value) *ssa.Function {
 		switch x := v.(type) {
 		case *ssa.MakeClosure:
 			f, _ := x.Fn.(*ssa.Function)
@@ -81,6 +81,18 @@ func (c *Ctx) CG() *callGraph {
 			return x
 		}
 		return nil
+	}
+	// method values (x.m) and method expressions are synthetic wrappers around the real method: unwrap them
+	funcOf := func(v ssa.Value) *ssa.Function {
+		f := rawFuncOf(v)
+		for f != nil && f.Synthetic != "" {
+			inner := wrappedCallee(f)
+			if inner == nil {
+				break
+			}
+			f = inner
+		}
+		return f
 	}
 	for _, fn := range c.RepoFns {
 		eachInstr(fn, func(r instrRef) {
@@ -130,6 +142,26 @@ func (c *Ctx) CG() *callGraph {
 					return
 				}
 				cs, ext := g.resolve(cc)
+				if ext {
+					// callbacks: a repo function (closure) handed to a function outside the repo — sync.Once.Do, sort.Slice,
+					// … — is taken to be called by it, at this call site
+					for _, a := range cc.Args {
+						if _, isSig := a.Type().Underlying().(*types.Signature); !isSig {
+							continue
+						}
+						if f := funcOf(a); f != nil && f.Blocks != nil && c.inRepo(f) {
+							dup := false
+							for _, o := range cs {
+								if o == f {
+									dup = true
+								}
+							}
+							if !dup {
+								cs = append(cs, f)
+							}
+						}
+					}
+				}
 				g.callees[r.I] = cs
 				g.external[r.I] = ext
 				for _, callee := range cs {
